@@ -66,7 +66,8 @@ def _mk_case(rng, cls, w, h, torus, qs, extra_ops=()):
     ops = []
     for (x, y, moore, ic, r) in qs:
         kind = rng.choice(["nbhd", "nbhd", "nbrs", "nbrs"])
-        form = rng.choice(["get", "iter"])
+        # "abandon" = an iterator that is started and dropped before the query proper; "np" = numpy integer arguments
+        form = rng.choice(["get", "iter", "get", "iter", "abandon", "np"])
         ops.append([kind, x, y, moore, ic, r, form])
     ops += list(extra_ops)
     return {"cls": cls, "w": w, "h": h, "torus": torus, "agents": agents, "ops": ops}
@@ -106,8 +107,8 @@ def gen_cases(rng, tier):
                     x, y = rng.randrange(w), rng.randrange(h)
                 qs.append((x, y, m, ic, r))
             else:
-                qs.append((rng.randrange(w), rng.randrange(h), rng.random() < 0.5, rng.random() < 0.5,
-                           rng.randint(1, max(w, h) + 1)))
+                r = rng.randint(1, max(w, h) + 1) if (rng.random() < 0.9 or max(w, h) > 6) else min(3 * max(w, h), 12)
+                qs.append((rng.randrange(w), rng.randrange(h), rng.random() < 0.5, rng.random() < 0.5, r))
         extra = []
         if rng.random() < 0.3:
             cl = [[rng.randrange(w), rng.randrange(h)] for _ in range(rng.randint(0, 4))]
@@ -417,8 +418,19 @@ def run_impl(case):
             if kind in ("nbhd", "nbrs"):
                 _, x, y, moore, ic, r, form = op
                 inb = 0 <= x < w and 0 <= y < h
+                if form == "abandon":
+                    it = g.iter_neighborhood((x, y), moore, ic, r) if kind == "nbhd" else g.iter_neighbors((x, y), moore, ic, r)
+                    next(it, None)
+                    del it
+                if form == "np":
+                    import numpy as np
+
+                    px, py, pr = (np.int64(x), np.int64(y)), None, np.int64(r)
+                    qpos = px
+                else:
+                    qpos, pr = (x, y), r
                 if kind == "nbhd":
-                    res = g.get_neighborhood((x, y), moore, ic, r) if form == "get" else list(g.iter_neighborhood((x, y), moore, ic, r))
+                    res = g.get_neighborhood(qpos, moore, ic, pr) if form in ("get", "np") else list(g.iter_neighborhood(qpos, moore, ic, pr))
                     cells = [tuple(int(v) for v in c) for c in res]
                     obs.append(_obs_cells(cells))
                     if inb:
@@ -430,7 +442,7 @@ def run_impl(case):
                             failures.append({"key": f"C09/{case['cls']}/neighborhood/wrong-cells", "op": i,
                                              "what": f"get_neighborhood({(x, y)}, moore={moore}, include_center={ic}, radius={r}) on {w}x{h} torus={torus}: got {sorted(cells)}, the cells in range are {sorted(exp)}"})
                 else:
-                    res = g.get_neighbors((x, y), moore, ic, r) if form == "get" else list(g.iter_neighbors((x, y), moore, ic, r))
+                    res = g.get_neighbors(qpos, moore, ic, pr) if form in ("get", "np") else list(g.iter_neighbors(qpos, moore, ic, pr))
                     got = [a._verif_id for a in res]
                     obs.append(_obs_agents(got))
                     if inb:
@@ -450,7 +462,7 @@ def run_impl(case):
             else:
                 raise ValueError(kind)
         except Exception as e:  # noqa: BLE001
-            if "out of bounds" in str(e) and kind != "contents" and not (0 <= op[1] < w and 0 <= op[2] < h):
+            if type(e) is Exception and kind != "contents" and not (0 <= op[1] < w and 0 <= op[2] < h):
                 obs.append([-1, E_OOB])
             else:
                 obs.append([-1, 99])
